@@ -31,6 +31,16 @@ TWOPI = 2 * math.pi
 # ------------------------------------------------------------------------------------------------------------
 
 
+_PER_KEY = {}
+
+
+def _violation(ctx, key, what, replay=None):
+    """At most 5 reports per finding key, so that one broken monitor does not crowd out the others."""
+    _PER_KEY[key] = _PER_KEY.get(key, 0) + 1
+    if _PER_KEY[key] <= 5:
+        ctx.violation(key, what, replay)
+
+
 def min_arc(lons):
     """Minimal arc (start, span) containing the given longitudes (radians, any branch)."""
     import numpy as np
@@ -843,13 +853,13 @@ def replay_bbox(ctx, rows, G, latboxes):
             before = tuple(tile.corners)
             got_w = bool(fil(bm, w, lb)(tile))
             if tuple(tile.corners) != before:
-                ctx.violation("C07:filter-mutates-tile", "the box filter changed the corners of the tile it was given", {"corners": row["c"], "G": G})
+                _violation(ctx, "C07:filter-mutates-tile", "the box filter changed the corners of the tile it was given", {"corners": row["c"], "G": G})
             for how, got in (("tile_intersects_latlon_bbox", got_d), ("_latlon_tile_filter", got_w)):
                 if got == exp:
                     continue
                 case = {"unit": "pi/%d" % G, "corners_lonlat": row["c"], "box_lon": [bm, bm + w], "box_lat": list(lb), "spec": exp, "real": got, "via": how}
                 if exp and not got:
-                    ctx.violation("C07:box-filter:grid-case", "%s rejects a tile whose corner hull meets the box (grid case, units of pi/%d): "
+                    _violation(ctx, "C07:box-filter:grid-case", "%s rejects a tile whose corner hull meets the box (grid case, units of pi/%d): "
                                   "corners %s box lon [%d, %d] lat %s" % (how, G, row["c"], bm, bm + w, list(lb)), case)
                 else:
                     ctx.drift("%s accepts a grid case the transcription rejects: %s" % (how, case))
@@ -949,7 +959,7 @@ def compare_chunk_grid(ctx, rec):
                     cover[(x, y)] = cover.get((x, y), 0) + 1
         holes = [(x, y) for y in range(H) for x in range(W) if cover.get((x, y), 0) != 1]
         if holes or len(cover) != W * H:
-            ctx.violation("C07:chunk-grid:not-a-partition", "chunk_spec of a %dx%d map in %dx%d chunks: map pixel %s lies in %d chunks"
+            _violation(ctx, "C07:chunk-grid:not-a-partition", "chunk_spec of a %dx%d map in %dx%d chunks: map pixel %s lies in %d chunks"
                           % (W, H, tw, th, holes[0] if holes else "outside", cover.get(holes[0], 0) if holes else 0),
                           {"config": rec["cf"], "real": real, "spec": specs})
         else:
@@ -1109,11 +1119,11 @@ def _run(ctx, pool, scratch, quick, rng):
             crashes.append(r)
             continue
         if kind == "raised":        # the code under test raised while building / applying a filter or sampling with it
-            ctx.violation("C07:%s:raises" % {"real": "box-or-chunk-filter", "foot": "wcs-filter", "wlayer": "sample-layer-filtered", "clayer": "chunked-sampling"}[r["kind"]],
+            _violation(ctx, "C07:%s:raises" % {"real": "box-or-chunk-filter", "foot": "wcs-filter", "wlayer": "sample-layer-filtered", "clayer": "chunked-sampling"}[r["kind"]],
                           "toasty raised %s in %s while a filter was built / applied / sampled through (%s task)" % (r["error"], r["where"], r["kind"]), r)
             continue
         for m in r.get("mut", []):
-            ctx.violation("C07:filter-mutates-tile", "a tile filter changed the corners of the tile it was given (%s task): %s" % (kind, str(m)[:300]), {"task": kind, "detail": m})
+            _violation(ctx, "C07:filter-mutates-tile", "a tile filter changed the corners of the tile it was given (%s task): %s" % (kind, str(m)[:300]), {"task": kind, "detail": m})
         if kind == "foot":
             foot_res[r["id"]] = r
         elif kind == "real":
@@ -1123,19 +1133,19 @@ def _run(ctx, pool, scratch, quick, rng):
             rejected += np.array(r["rejected"])
             ctx.count(r["calls"])
             for rr in r.get("raised", []):
-                ctx.violation("C07:box-or-chunk-filter:raises", "the filter factory raised %s for the valid region %s" % (rr["error"], rr["region"]), rr)
+                _violation(ctx, "C07:box-or-chunk-filter:raises", "the filter factory raised %s for the valid region %s" % (rr["error"], rr["region"]), rr)
             if r.get("hull_excess"):
                 ctx.drift("pixel centres of tiles %s leave the lat/lon hull of the tile corners (side condition of NoFalseNegative)" % (r["hull_excess"][:4],))
             for v in r["viol"]:
                 key = "C07:box-filter:false-negative" if v["region"][0] == "box" else "C07:chunk-filter:false-negative"
-                ctx.violation(key, "tile %s (%s) has %d pixel centres inside %s but is not delivered by generate_tiles_filtered (filter rejects %s); e.g. pixel %s at lon/lat %s"
+                _violation(ctx, key, "tile %s (%s) has %d pixel centres inside %s but is not delivered by generate_tiles_filtered (filter rejects %s); e.g. pixel %s at lon/lat %s"
                               % (v["tile"], v["coordsys"], v["pixels_inside"], v["region"], v["rejected_at"], v["pixel"], v["lonlat"]), v)
         elif kind == "wlayer":
             ctx.count(r["tiles"])
             ctx.add_note("wcs_layer_finite_pixels_compared", r["finite_pixels"])
             ctx.distinct(("wlayer", r["id"]))
             for v in r["viol"]:
-                ctx.violation("C07:sample-layer-filtered:differs", "sample_layer_filtered with the image's own filter differs from sample_layer in tile %s: %d pixels, e.g. %s unfiltered %r filtered %r (filter verdicts on the path %s)"
+                _violation(ctx, "C07:sample-layer-filtered:differs", "sample_layer_filtered with the image's own filter differs from sample_layer in tile %s: %d pixels, e.g. %s unfiltered %r filtered %r (filter verdicts on the path %s)"
                               % (v["tile"], v["pixels"], v["first"], v["unfiltered"], v["filtered"], v["filter_verdicts_on_path"]), {"case": {k: x for k, x in wl_cases[r["id"]].items() if k != "scratch"}, "detail": v})
         elif kind == "clayer":
             ctx.count(r["tiles"] + r["filter_calls"])
@@ -1143,7 +1153,7 @@ def _run(ctx, pool, scratch, quick, rng):
             ctx.add_note("chunked_pixels_on_a_cell_boundary_excluded", r["ambiguous"])
             ctx.distinct(("clayer", r["id"]))
             for v in r["viol"]:
-                ctx.violation("C07:chunked-sampling:differs", "sampling all chunks of map %s one after another leaves tile %s different from whole-map sampling in %d pixels: pixel %s whole-map %s chunked %s (map pixel row/col %s)"
+                _violation(ctx, "C07:chunked-sampling:differs", "sampling all chunks of map %s one after another leaves tile %s different from whole-map sampling in %d pixels: pixel %s whole-map %s chunked %s (map pixel row/col %s)"
                               % (sampled[r["id"]][0], v["tile"], v["pixels"], v["first"], v["whole_map"], v["chunked"], v["map_pixel_row_col"]), {"config": sampled[r["id"]], "detail": v})
     for ri in range(len(regions)):
         if rejected[ri] > 0:
@@ -1165,14 +1175,14 @@ def _run(ctx, pool, scratch, quick, rng):
             nexp += 1
             maxexp = max(maxexp, r["exposure_px"])
         if r["error"]:
-            ctx.violation("C07:wcs-filter:raises", "WcsSampler.filter() of a %dx%d image: %s" % (d["nx"], d["ny"], r["error"]), {"footprint": d})
+            _violation(ctx, "C07:wcs-filter:raises", "WcsSampler.filter() of a %dx%d image: %s" % (d["nx"], d["ny"], r["error"]), {"footprint": d})
         for v in r["viol"]:
             wcs_wit.append((d, v))
     # strongest witnesses first (the first one is the one printed and written to the replay file)
     wcs_wit.sort(key=lambda dv: (-dv[1]["pixels_well_inside"], dv[0]["id"]))
     for d, v in wcs_wit:
         fpd = v["footprint"]
-        ctx.violation("C07:wcs-filter:false-negative",
+        _violation(ctx, "C07:wcs-filter:false-negative",
                       "WcsSampler.filter() rejects tile %s (first rejection on its path: %s) although %d of its pixel centres sample finite image data "
                       "(%d of them more than %.2f px inside the image); image %dx%d px of %.4f deg at RA %.4f Dec %.4f, box (deg) %s, true latitude range %s; "
                       "tile side %.1f image px [%s]"
